@@ -1,6 +1,8 @@
 CONSTANTS
   Dev <- EnvDev
   RecU = {1, 2, 5, 13}
+  TtlU = {0}
+  Styles = {"rfc"}
   MaxC = 2
   Kinds = {"axfr", "ixfr1", "fallback", "uptodate"}
   MaxMsgs = 3
